@@ -490,6 +490,9 @@ pub fn bfs_check<const N: usize>(prop: &str, o: &Opts, rep: &mut Report) {
     if prop == "C03" && o.shard.0 == 0 {
         crate::zst::zst_twin::<N>(prop, rep);
     }
+    if prop == "C17" && o.shard.0 == 0 && N <= 16 {
+        crate::io::c17_io::<N>(rep);
+    }
     if (prop == "C11" || prop == "C02") && N == 0 && o.shard.0 == 0 {
         // the boundary of the documented panics at len == usize::MAX
         for p in crate::c19::huge_full_probes() {
